@@ -288,6 +288,9 @@ BaseSize(a) ==
 
 ChanAt(a, k) == IF \E j \in DOMAIN a.chans : a.chans[j].at = k
                 THEN CHOOSE j \in DOMAIN a.chans : a.chans[j].at = k ELSE 0
+\* the channel whose keys a funding-kind output is built from (slot, or the next channel in order)
+FundIdx(a, k) == IF a.outs[k].slot > 0 THEN a.outs[k].slot
+                 ELSE Cardinality({j \in 1..k : a.outs[j].kind \in FundKinds})
 \* abstract case -> expected concrete case
 Facts(a) ==
   [ pol   |-> a.pol, ver |-> a.ver, base |-> BaseSize(a), txw |-> 4 * BaseSize(a),
@@ -296,7 +299,7 @@ Facts(a) ==
     outs  |-> [k \in DOMAIN a.outs |-> LET t == KindTab[a.outs[k].kind] IN
                  [v |-> a.outs[k].v, path |-> t.path, own |-> t.own, st |-> t.st,
                   inlist |-> (t.own = "listed" /\ a.listed), xin |-> (t.own = "xpub" /\ a.xpub),
-                  ch |-> ChanAt(a, k), fs |-> a.outs[k].kind \in {"F", "Fp"}]],
+                  ch |-> ChanAt(a, k), fs |-> a.outs[k].kind \in {"F", "Fp"} /\ FundIdx(a, k) = ChanAt(a, k)]],
     chans |-> [j \in DOMAIN a.chans |-> LET t == CommitTab[a.chans[j].commit] IN
                  [val |-> a.chans[j].val, outbound |-> a.chans[j].outbound, push |-> a.chans[j].push,
                   nh |-> t.nh, hasnext |-> t.hasnext]] ]
